@@ -3,6 +3,7 @@
 The Python source of strax's njit kernels is executed on symbolic interval arrays (times on all of
 Z within [0, 2^62)); every obligation is a z3 `unsat` verdict per explored path.
 """
+import os
 import warnings
 
 import numpy as np
@@ -113,8 +114,9 @@ def nat_contain(params, model):
     return {"ok": got == want, "detail": f"got {got} want {want} things={things.tolist()} conts={conts.tolist()}"}
 
 
-def sym_contain_reject(nt, nc, which):
-    """Unsorted things / containers => ValueError, exactly then."""
+def sym_contain_reject(nt, nc, which, opt=False):
+    """Unsorted things / containers => ValueError, exactly then.  opt=True: the native replay of the path witnesses runs
+    in an interpreter started with -O (assert statements are compiled away there)."""
     import strax
 
     tt, te = H.sym_times("a", nt, sorted_=(which != "things"))
@@ -122,15 +124,64 @@ def sym_contain_reject(nt, nc, which):
     things, conts = H.arr_end(tt, te), H.arr_end(ct, ce)
     lst = tt if which == "things" else ct
     unsorted = sor(*[lst[i + 1] < lst[i] for i in range(len(lst) - 1)])
+    if opt:
+        assume(unsorted)  # every path witness is an input that has to be refused
     raised, _ = H.expect_raises(ValueError, strax.fully_contained_in, things, conts)
     prove(iff(unsorted, raised) if core.is_sym(unsorted) else unsorted == raised,
           f"contain_reject:{which} raised={raised}")
     return raised
 
 
+_OPT_SCRIPT = r"""
+import json, sys, warnings
+import numpy as np
+import strax
+d = json.loads(sys.argv[1])
+def arr(rows):
+    a = np.zeros(len(rows), dtype=[("time", np.int64), ("endtime", np.int64), ("id", np.int64)])
+    for i, (t, e) in enumerate(rows):
+        a["time"][i], a["endtime"][i], a["id"][i] = t, e, i
+    return a
+warnings.simplefilter("ignore")
+assert not __debug__ or d.get("debug")
+try:
+    res = strax.fully_contained_in(arr(d["things"]), arr(d["conts"]))
+    print(json.dumps({"raised": False, "res": [int(x) for x in res]}))
+except ValueError as e:
+    print(json.dumps({"raised": True}))
+"""
+
+
 def nat_contain_reject(params, model):
     import strax
 
+    if params.get("opt"):
+        import json
+        import shutil
+        import subprocess
+        import sys
+        import tempfile
+
+        things = H.conc_end(model, "a", params["nt"])
+        conts = H.conc_end(model, "c", params["nc"])
+        lst = things["time"] if params["which"] == "things" else conts["time"]
+        unsorted = bool(np.any(np.diff(lst) < 0))
+        cache = tempfile.mkdtemp(prefix="verif_nbO_")
+        try:
+            d = dict(things=[[int(x["time"]), int(x["endtime"])] for x in things],
+                     conts=[[int(x["time"]), int(x["endtime"])] for x in conts])
+            env = dict(os.environ, NUMBA_CACHE_DIR=cache)
+            env.pop("NUMBA_DISABLE_JIT", None)
+            env.pop("PYTHONOPTIMIZE", None)
+            p = subprocess.run([sys.executable, "-O", "-c", _OPT_SCRIPT, json.dumps(d)], capture_output=True, text=True,
+                               env=env, timeout=600)
+            if p.returncode != 0:
+                return {"ok": None, "detail": "python -O run failed: " + p.stderr[-300:]}
+            out = json.loads(p.stdout.strip().splitlines()[-1])
+        finally:
+            shutil.rmtree(cache, ignore_errors=True)
+        return {"ok": out["raised"] == unsorted, "label": "contain_reject:python -O: unsorted input answered instead of rejected",
+                "detail": f"python -O: unsorted={unsorted} raised={out['raised']} answer={out.get('res')} for {d}"}
     things = H.conc_end(model, "a", params["nt"])
     conts = H.conc_end(model, "c", params["nc"])
     lst = things["time"] if params["which"] == "things" else conts["time"]
@@ -726,8 +777,9 @@ OBLIGATIONS = [
     Ob("contain", sym_contain, _g_contain, nat_contain, setup=_setup,
        doc="fully_contained_in == first container with c.t<=t and e<=c.e, else -1"),
     Ob("contain_reject", sym_contain_reject,
-       lambda tier: [dict(nt=nt, nc=nc, which=w) for nt, nc in ((2, 1), (3, 2), (1, 3)) for w in ("things", "conts")],
-       nat_contain_reject, setup=_setup, doc="unsorted input <=> ValueError"),
+       lambda tier: [dict(nt=nt, nc=nc, which=w) for nt, nc in ((2, 1), (3, 2), (1, 3)) for w in ("things", "conts")]
+       + [dict(nt=2, nc=2, which=w, opt=True) for w in ("things", "conts")],
+       nat_contain_reject, setup=_setup, doc="unsorted input <=> ValueError (also in an interpreter started with -O)"),
     Ob("split_contain", sym_split_contain, _g_split, nat_split_contain, setup=_setup,
        doc="split_by_containment groups == things whose (first) container is j"),
     Ob("overlap", sym_overlap, lambda tier: [dict()], nat_overlap, setup=_setup,
@@ -761,6 +813,9 @@ OBLIGATIONS = [
 
 
 MUTANTS = [
+    dict(name="sortedness check is an assert statement again (original defect F-C17f)", file="strax/processing/general.py",
+         only="contain_reject", old="    mask = np.all((time[1:] - time[:-1]) >= 0)\n    # Not an assert statement: python -O compiles those away\n    if not mask:\n        raise AssertionError",
+         new="    mask = np.all((time[1:] - time[:-1]) >= 0)\n    assert mask"),
     dict(name="sort guard by float division (original defect F-C17c)", file="strax/processing/general.py", only="sort_key",
          old="    max_time_difference = (int(np.iinfo(np.int64).max) - 10) // max_channel_plus_one - 1",
          new="    max_time_difference = (np.iinfo(np.int64).max - 10) / max_channel_plus_one"),
